@@ -120,7 +120,7 @@ def run_tlc(
     cfg = work / f'{module}-{tag}.cfg'
     cfg.write_text(cfg_text)
     meta = work / f'meta-{tag}'
-    cmd = ['java', '-XX:+UseParallelGC', f'-Xmx{heap}', '-Xss32m']
+    cmd = ['java', '-XX:+UseParallelGC', f'-Xmx{heap}', '-Xss32m', f'-Djava.io.tmpdir={work}']     # (SANY unpacks its library into java.io.tmpdir)
     if deque:
         cmd.append('-Dtlc2.tool.queue.IStateQueue=StateDeque')
     cmd += ['-cp', f'{TLA_JAR}:{TLA_DEPS}', 'tlc2.TLC', '-workers', str(workers), '-metadir', str(meta),
@@ -226,7 +226,7 @@ def run_sharded(module: str, cfg_template: str, nshards: int, *, tag: str, timeo
 def sany(module: str) -> None:
     work = subdir('sany')
     _stage_specs(work)
-    p = subprocess.run(['java', '-cp', f'{TLA_JAR}:{TLA_DEPS}', 'tla2sany.SANY', str(work / f'{module}.tla')],
+    p = subprocess.run(['java', f'-Djava.io.tmpdir={work}', '-cp', f'{TLA_JAR}:{TLA_DEPS}', 'tla2sany.SANY', str(work / f'{module}.tla')],
                        cwd=work, capture_output=True, text=True)
     if p.returncode != 0 or 'error' in p.stdout.lower() and 'Semantic errors' in p.stdout:
         raise MachineryError(f'SANY failed for {module}:\n{p.stdout[-3000:]}')
